@@ -1809,7 +1809,14 @@ impl FunctionDef {
                 for (idx, expected_arg) in expected_args.iter().enumerate() {
                     match expected_arg {
                         LambdaArg::Required(arg_name) => {
-                            local_bindings.insert(arg_name.clone(), args[idx]);
+                            let arg = args.get(idx).copied().ok_or_else(|| {
+                                RuntimeError::new(format!(
+                                    "{} requires an argument for parameter \"{}\"",
+                                    self.get_name(),
+                                    arg_name
+                                ))
+                            })?;
+                            local_bindings.insert(arg_name.clone(), arg);
                         }
                         LambdaArg::Optional(arg_name) => {
                             local_bindings.insert(
